@@ -14,5 +14,6 @@ CONSTANTS
   D = 50
 INIT Init
 NEXT Next
+ACTION_CONSTRAINT DownAtomic
 INVARIANT Export
 CHECK_DEADLOCK FALSE
